@@ -33,7 +33,7 @@ def signature(draw, scope, free_p=0.12, max_params=4, posonly=True, default_p=0.
 
 @st.composite
 def config(draw, max_levels=1, max_mws=4, posonly=True, nonunique=True, nonreorderable=False, free_p=0.12,
-           all_kinds=True, perturb=True):
+           all_kinds=True, perturb=True, renderless_ctx=False):
     nlevels = draw(st.integers(1, max_levels))
     pool = list(NAMES)
     roles = {}
@@ -170,7 +170,9 @@ def config(draw, max_levels=1, max_mws=4, posonly=True, nonunique=True, nonreord
         route['ep_returns'] = draw(st.sampled_from(['context', 'context', 'context', 'response']))
     else:
         route['rn'] = None
-        route['ep_returns'] = 'response'
+        # (C03 only) an endpoint that returns a context although the route has no renderer: the render middlewares still run
+        # around the identity render, and unless one of them answers the request ends as "expected Response" (C08's 500)
+        route['ep_returns'] = draw(st.sampled_from(['response', 'response', 'context'])) if renderless_ctx else 'response'
     if pert:
         phase, name, optional_first = pert
         funcs = [mw_[phase] for mw_, _ in by_id.values() if mw_.get(phase) is not None and not mw_.get('share')]
